@@ -322,7 +322,7 @@ func (p *Program) Replay(key string, o *Obligation, prop, outDir string) *Replay
 			t = pt.Elem()
 			name += "@entry"
 		}
-		mv, ok := vals[name]
+		mv, ok := vals[strings.Trim(quoteSym(name), "|")]
 		var tm *Term
 		if !ok {
 			// input not mentioned by the model: any value will do
